@@ -5,6 +5,7 @@ package main
 
 import (
 	"bytes"
+	"strings"
 
 	"github.com/veraison/psatoken"
 )
@@ -27,7 +28,13 @@ type gatesEv struct {
 	Post  Obj                `json:"post"`
 	VRet  Ret                `json:"vret"`
 	Gates map[string]gateRes `json:"gates"`
+	Ts    tsArg              `json:"ts"` // extension profile X2: its own claim, which its own Validate() wants non-negative
 	Pan   bool               `json:"panicked"`
+}
+
+type tsArg struct {
+	Present bool `json:"present"`
+	V       int  `json:"v"`
 }
 
 func init() {
@@ -38,9 +45,13 @@ func init() {
 		t := NewTracer(a.Out)
 		b := 0
 		blankObj := func(c psatoken.IClaims) Obj { return AbsClaims(c) }
-		run := func(src string, s CSpec) {
-			c := cc.BuildLit(s)
+		var runC func(src string, c psatoken.IClaims)
+		run := func(src string, s CSpec) { runC(src, cc.BuildLit(s)) }
+		runC = func(src string, c psatoken.IClaims) {
 			ev := gatesEv{B: b, Op: "Gates", Src: src, Pre: AbsClaims(c), Gates: map[string]gateRes{}}
+			if x, ok := c.(*X2Claims); ok && x.Timestamp != nil {
+				ev.Ts = tsArg{Present: true, V: int(*x.Timestamp)}
+			}
 			ev.VRet = safeValidate(c)
 			pre := ev.Pre
 			ev.Pan = safely(func() {
@@ -168,6 +179,41 @@ func init() {
 				run("random", s)
 			}
 		}
+		// an extension profile whose own Validate() is stricter than the common rules (harness profile X2: profile-2
+		// rules plus "timestamp, when present, is not negative"): every gate consults the claims-set's own validator
+		if strings.Contains(a.Reg, "X2") {
+			registerExtras("X2")
+			bases := map[string]CSpec{"full": d.base("P2", "full"), "minimal": d.base("P2", "minimal")}
+			for kind, bs := range bases {
+				specs := []CSpec{bs}
+				for _, c := range []string{"implId", "nonce", "lifecycle"} {
+					for _, al := range d.alts("P2", c) {
+						s := bs.clone()
+						s.apply(al)
+						specs = append(specs, s)
+					}
+				}
+				for k, s := range specs {
+					xs := s.clone()
+					xs.Canon = X2Name
+					xs.Vals["profile"] = V{K: "prof", S: []any{X2Name}}
+					for _, ts := range []*int64{nil, i64(0), i64(1721138454), i64(-1), i64(-2147483648)} {
+						if k > 0 && ts != nil && *ts > 0 {
+							continue
+						}
+						x := cc.BuildLit(xs)
+						p2, ok := x.(*psatoken.P2Claims)
+						if !ok {
+							fatal("X2 base is %T", x)
+						}
+						xc := &X2Claims{P2Claims: *p2, Timestamp: ts}
+						runC("x2:"+kind, xc)
+					}
+				}
+			}
+		}
 		t.Close(nil)
 	}
 }
+
+func i64(v int64) *int64 { return &v }
